@@ -686,10 +686,13 @@ impl<'tcx> Dumper<'tcx> {
             ty::Float(_) => o.set("kind", J::Str("float".into())),
             ty::Array(et, n) => {
                 o.set("kind", J::Str("array".into()));
-                if let Some(n) = n.try_to_target_usize(tcx) {
-                    o.set("n", J::Int(n as i128));
+                let _ = n;
+                if let rustc_abi::FieldsShape::Array { count, stride } = &layout.fields {
+                    o.set("n", J::Int(*count as i128));
+                    o.set("stride", J::Int(stride.bytes() as i128));
                 }
-                o.set("elem", self.shape(*et, depth + 1));
+                let et2 = tcx.normalize_erasing_regions(env, ty::Unnormalized::new_wip(*et));
+                o.set("elem", self.shape(et2, depth + 1));
             }
             ty::Tuple(ts) => {
                 o.set("kind", J::Str("struct".into()));
